@@ -36,7 +36,7 @@ Init ==
        /\ mode = s.mode
        /\ bytes = s.bytes
        /\ \/ charset = "utf8" /\ cuts \in CutsFor(s, MaxFullLen, MaxCuts, CoverDepth)
-          \/ charset = "latin1" /\ cuts \in CutSets(Len(s.bytes), AltFullLen, AltMaxCuts)
+          \/ charset = "latin1" /\ cuts \in CutsFor(s, AltFullLen, AltMaxCuts, AltMaxCuts)
   /\ pos = 0
   /\ carry = <<>>
   /\ st = S0
